@@ -40,6 +40,7 @@ import (
 	"github.com/containerd/stargz-snapshotter/estargz"
 	commonmetrics "github.com/containerd/stargz-snapshotter/fs/metrics/common"
 	"github.com/containerd/stargz-snapshotter/metadata"
+	"github.com/containerd/stargz-snapshotter/util/verifhook"
 	digest "github.com/opencontainers/go-digest"
 	"golang.org/x/sync/errgroup"
 	"golang.org/x/sync/semaphore"
@@ -96,8 +97,10 @@ func (vr *VerifiableReader) VerifyTOC(tocDigest digest.Digest) (Reader, error) {
 	}
 	vr.prohibitVerifyFailureMu.Lock()
 	vr.prohibitVerifyFailure = true
+	verifhook.Point("reader.verifyTOC.afterProhibit", vr)
 	lastVerifyErr := vr.loadLastVerifyErr()
 	vr.prohibitVerifyFailureMu.Unlock()
+	verifhook.Point("reader.verifyTOC.afterLoadErr", vr)
 	if err := lastVerifyErr; err != nil {
 		return nil, fmt.Errorf("content error occurs during caching contents: %w", err)
 	}
@@ -273,6 +276,7 @@ func (vr *VerifiableReader) readAndCache(id uint32, fr io.Reader, chunkOffset, c
 	}
 	if v != nil && !v.Verified() {
 		err := fmt.Errorf("invalid chunk")
+		verifhook.Point("reader.readAndCache.verifyFailed", vr)
 		vr.prohibitVerifyFailureMu.RLock()
 		if vr.prohibitVerifyFailure {
 			vr.prohibitVerifyFailureMu.RUnlock()
@@ -281,6 +285,7 @@ func (vr *VerifiableReader) readAndCache(id uint32, fr io.Reader, chunkOffset, c
 		}
 		vr.storeLastVerifyErr(err)
 		vr.prohibitVerifyFailureMu.RUnlock()
+		verifhook.Point("reader.readAndCache.storedErr", vr)
 	}
 
 	return w.Commit()
